@@ -112,6 +112,12 @@ type tcase struct {
 	// its answer) whose id some incoming stanzas reuse: ids are only unique per
 	// sender, so an incoming get/set with that id is still a request to answer
 	outstanding bool
+	// the peer answers that request: the answer stands in the input before the
+	// element with this index (-1: never answered); the waiting caller reads
+	// ownRespRead of it ("none", "some", "all": to its very end) and closes it.
+	// What follows it is served like everything else.
+	ownRespAt   int
+	ownRespRead string
 	s2s         bool
 	useMux      bool
 	// the session was created for the address example.org and was assigned
@@ -222,6 +228,7 @@ func genCase(t *rapid.T) tcase {
 		}
 	}
 	tc.outstanding = rapid.IntRange(0, 3).Draw(t, "outstanding") == 0
+	tc.ownRespAt = -1
 	collided := false
 	n := rapid.IntRange(1, 5).Draw(t, "nelems")
 	for i := 0; i < n; i++ {
@@ -334,6 +341,10 @@ func genCase(t *rapid.T) tcase {
 		tc.elems = append(tc.elems, e)
 	}
 	tc.closeIt = rapid.IntRange(0, 3).Draw(t, "close") > 0
+	if tc.outstanding && tc.ws == "" && rapid.Bool().Draw(t, "ownAnswered") {
+		tc.ownRespAt = rapid.IntRange(0, len(tc.elems)).Draw(t, "ownRespAt")
+		tc.ownRespRead = rapid.SampledFrom([]string{"none", "some", "all", "all"}).Draw(t, "ownRespRead")
+	}
 	return tc
 }
 
@@ -346,7 +357,7 @@ func (tc tcase) ns() string {
 
 func (tc tcase) String() string {
 	var sb strings.Builder
-	fmt.Fprintf(&sb, "s2s=%v mux=%v own-request-%q-outstanding=%v address-assigned-during-negotiation(created as example.org)=%v websocket-session=%q another-goroutine-mid-element-while-handlers-reply=%v", tc.s2s, tc.useMux, outstandingID, tc.outstanding, tc.addrChanged, tc.ws, tc.midWriter)
+	fmt.Fprintf(&sb, "s2s=%v mux=%v own-request-%q-outstanding=%v (answered before element %d, the caller reads %q of the answer) address-assigned-during-negotiation(created as example.org)=%v websocket-session=%q another-goroutine-mid-element-while-handlers-reply=%v", tc.s2s, tc.useMux, outstandingID, tc.outstanding, tc.ownRespAt, tc.ownRespRead, tc.addrChanged, tc.ws, tc.midWriter)
 	if tc.useMux {
 		var ks []string
 		for k := range tc.reg {
@@ -608,12 +619,19 @@ func check(t interface {
 	ns := tc.ns()
 	conn := wire.NewConn()
 	conn.FeedString(opts.Header())
-	for _, e := range tc.elems {
+	ownResp := `<iq xmlns="` + ns + `" type="result" id="` + outstandingID + `"><query xmlns="urn:verif:own"><item n="1"/>text</query></iq>`
+	for i, e := range tc.elems {
+		if i == tc.ownRespAt {
+			conn.FeedString(ownResp)
+		}
 		if tc.ws != "" {
 			conn.Feed(e.node.Bytes("")) // every element declares its namespace
 		} else {
 			conn.Feed(e.node.Bytes(ns))
 		}
+	}
+	if tc.ownRespAt == len(tc.elems) {
+		conn.FeedString(ownResp)
 	}
 	if tc.closeIt {
 		if tc.ws != "" {
@@ -678,6 +696,17 @@ func check(t interface {
 			defer close(odone)
 			resp, _ := s.SendIQ(octx, xt.El(ns, "iq", []xml.Attr{xt.A("type", "get"), xt.A("id", outstandingID)}, xt.El("urn:xmpp:ping", "ping", nil)).Reader())
 			if resp != nil {
+				switch tc.ownRespRead {
+				case "some":
+					_, _ = resp.Token()
+					_, _ = resp.Token()
+				case "all":
+					for {
+						if _, err := resp.Token(); err != nil {
+							break
+						}
+					}
+				}
 				_ = resp.Close()
 			}
 		}()
@@ -882,6 +911,9 @@ func classify(tc tcase) (bool, []string) {
 	}
 	if tc.outstanding {
 		classes = append(classes, "own-request-outstanding")
+		if tc.ownRespAt >= 0 {
+			classes = append(classes, "own-request-answered-among-the-input", "own-answer-read-"+tc.ownRespRead)
+		}
 		for _, e := range tc.elems {
 			if e.id == outstandingID {
 				classes = append(classes, "incoming-request-reuses-own-id")
